@@ -493,7 +493,7 @@ pub fn run_check(check: &'static dyn Check, opts: RunOpts) -> i32 {
     let mut reported: Vec<Value> = vec![];
     for (sig, (idx, msg, tape)) in failures.iter().take(6) {
         let (small, smsg, tries) = shrink(&spawner, check, sig, tape, opts.strict);
-        let path = save_replay(&id, sig, &small, smsg.as_deref().unwrap_or(msg), *idx, opts.seed);
+        let path = save_replay(&id, sig, &small, smsg.as_deref().unwrap_or(msg), *idx, opts.seed, opts.tier);
         println!("VIOLATION property={id} replay={}", path.display());
         println!("  signature: {sig}");
         println!("  case index {idx} (seed {}), shrunk {} -> {} bytes in {tries} candidates", opts.seed, tape.len(), small.len());
@@ -672,7 +672,7 @@ fn write_evidence(check: &dyn Check, opts: &RunOpts, a: &Agg, t0: Instant, extra
     std::fs::rename(&tmp, &p).unwrap();
 }
 
-fn save_replay(id: &str, sig: &str, tape: &[u8], msg: &str, idx: u64, seed: u64) -> PathBuf {
+fn save_replay(id: &str, sig: &str, tape: &[u8], msg: &str, idx: u64, seed: u64, tier: Tier) -> PathBuf {
     let d = lang::verif_root().join("replays");
     let _ = std::fs::create_dir_all(&d);
     let clean: String = sig.chars().map(|c| if c.is_ascii_alphanumeric() { c } else { '_' }).collect();
@@ -680,7 +680,7 @@ fn save_replay(id: &str, sig: &str, tape: &[u8], msg: &str, idx: u64, seed: u64)
     let h = crate::tape::fnv(tape) & 0xffff_ffff;
     let p = d.join(format!("{id}-{clean}-{h:08x}.tape"));
     let _ = std::fs::write(&p, tape);
-    let j = json!({"property": id, "signature": sig, "message": msg, "found_at_case": idx, "seed": seed, "tape_hex": hex(tape)});
+    let j = json!({"property": id, "signature": sig, "message": msg, "found_at_case": idx, "seed": seed, "tier": if tier == Tier::Quick { "quick" } else { "thorough" }, "tape_hex": hex(tape)});
     let _ = std::fs::write(p.with_extension("json"), serde_json::to_string_pretty(&j).unwrap());
     p
 }
@@ -842,6 +842,20 @@ fn shrink(sp: &Spawner, check: &dyn Check, sig: &str, tape: &[u8], strict: bool)
 
 /// replay one tape file in strict mode (no known-finding suppression)
 pub fn replay(check: &'static dyn Check, path: &Path, tier: Tier, seed: u64) -> i32 {
+    // a tape is interpreted under the tier (size limits) and seed of the run that saved it: both are in the side-car file
+    let (mut tier, mut seed) = (tier, seed);
+    if let Ok(txt) = std::fs::read_to_string(path.with_extension("json")) {
+        if let Ok(v) = serde_json::from_str::<serde_json::Value>(&txt) {
+            match v["tier"].as_str() {
+                Some("quick") => tier = Tier::Quick,
+                Some("thorough") => tier = Tier::Thorough,
+                _ => {}
+            }
+            if let Some(s) = v["seed"].as_u64() {
+                seed = s;
+            }
+        }
+    }
     let tape = match std::fs::read(path) {
         Ok(t) => t,
         Err(e) => {
